@@ -28,7 +28,7 @@ def _snap(E, objs):
         if o is None:
             continue
         vals = [c.clone() for c in o.cores] if E.mode == 'real' else None
-        out.append((o, o.cores, list(o.cores), [int(r) for r in o.R], list(o.N), vals))
+        out.append((o, o.cores, list(o.cores), [int(r) for r in o.R], list(o.N), vals, [c._version for c in o.cores]))
     return out
 
 
@@ -37,14 +37,18 @@ def _operands_intact(E, snaps, y):
     (real replay: the core values are compared as well)"""
     ok = True
     own = True
-    for o, lst, tensors, R, N, vals in snaps:
+    written = False
+    for o, lst, tensors, R, N, vals, vers in snaps:
         ok = ok and o.cores is lst and len(lst) == len(tensors) and all(a is b for a, b in zip(lst, tensors))
         ok = ok and [int(r) for r in o.R] == R and list(o.N) == N
+        # in-place writes into an operand's core tensors bump their version counters (data is abstract at this level, the counters are not)
+        written = written or any(c._version != v for c, v in zip(tensors, vers))
         if vals is not None and ok:
             ok = ok and all(a.shape == b.shape and bool((a == b).all()) for a, b in zip(lst, vals))
         if hasattr(y, 'cores'):
             own = own and y.cores is not lst
     E.true('operands_intact', ok)
+    E.true('operand_cores_not_written', not written)
     E.true('result_own_core_list', own)
 
 
